@@ -269,6 +269,38 @@ func c20Defaults(c *Ctx, p *Program, docs []optDoc) {
 					}
 					cfgField := fieldName(fa.X.Type(), fa.Field)
 					site = fn.Name() + ":store(" + namedOf(fa.X.Type()) + "." + cfgField + ")"
+					// the setting is assigned nowhere else in this function, except from the same option or
+					// with the documented default: any other assignment decides what the sentinel means
+					for _, ob := range fn.Blocks {
+						for _, oin := range ob.Instrs {
+							ost, ok := oin.(*ssa.Store)
+							if !ok || ost == x {
+								continue
+							}
+							ofa, ok := ost.Addr.(*ssa.FieldAddr)
+							if !ok || ofa.Field != fa.Field || !types.Identical(ofa.X.Type(), fa.X.Type()) {
+								continue
+							}
+							if ost.Val == ssa.Value(ld) {
+								continue
+							}
+							if ou, ok := ost.Val.(*ssa.UnOp); ok {
+								if ofa2, ok := ou.X.(*ssa.FieldAddr); ok && fieldName(ofa2.X.Type(), ofa2.Field) == od.name {
+									continue
+								}
+							}
+							okOther := false
+							if k, ok := ost.Val.(*ssa.Const); ok {
+								if kv, ok := constantInt(k); ok && kv == int64(od.d) {
+									okOther = true
+								}
+							}
+							n++
+							c.Check(okOther, "D1-doc-default", fmt.Sprintf("%s:%s:other-store", od.name, site), p.Pos(ost.Pos()),
+								"the other assignment of the setting stores the documented default",
+								fmt.Sprintf("%s.%s, which %s fills from the option %s, is also assigned %s here: with the option left at its sentinel the setting is not the documented default %d on this path", namedOf(fa.X.Type()), cfgField, fn.Name(), od.name, p.ExprText(ost.Val.Pos()), od.d))
+						}
+					}
 					// the guard: the store's block is entered through an If on this option
 					for i, cl := range classes {
 						e := classEnv(p, od.name, cl.sign)
